@@ -15,10 +15,8 @@ Record case := mk {
 
 Definition judge (c : case) : verdict :=
   let want := spec_advertised (sup c) (proto c) in
-  let spec := outs want (parked c) (ops c) in
   let impl := outs (impl_advertised (sup c) (proto c)) (parked c) (ops c) in
   let setup_ok := count_api c =? parked c in
   if holds_C43 want (count_api c) (ops c) (observed c)
-  then (if beq_outs (observed c) spec && setup_ok then VOk else VMismatch)
-  else if trigger_unsupported (sup c) (proto c) && beq_outs (observed c) impl && setup_ok then VKnown 1
+  then (if beq_outs (observed c) impl && setup_ok then VOk else VMismatch)
   else VViolation.
